@@ -338,6 +338,7 @@ func main() {
 	// which every obligation of the function is discharged is a proof of the same specification.
 	var repairNotes []string
 	var repairedVanish []string // ledger name prefixes replaced by a repaired proof's own obligations
+	var repairedVanishIn [][2]string // (unit prefix, substring): ledger names of a repaired unit replaced likewise
 	if onlyRe == nil && !*update {
 		inLedger := map[string]bool{}
 		if data, err := os.ReadFile(filepath.Join(*verif, "baseline", prop+".json")); err == nil {
@@ -399,7 +400,11 @@ func main() {
 				note := fmt.Sprintf("%s: proof repair - %s (accepted because every obligation of the function is discharged with it; requires/ensures/oncall/assert clauses unchanged)", funcKey(fn), v.note)
 				repairNotes = append(repairNotes, note)
 				if v.vanishOK != "" {
-					repairedVanish = append(repairedVanish, vus[0].name+v.vanishOK)
+					if strings.HasPrefix(v.vanishOK, ":") {
+						repairedVanishIn = append(repairedVanishIn, [2]string{vus[0].name + "/", v.vanishOK})
+					} else {
+						repairedVanish = append(repairedVanish, vus[0].name+v.vanishOK)
+					}
 				}
 				vus[0].abstractions[note] = true
 				var keep []*Unit
@@ -665,6 +670,11 @@ func main() {
 			replaced := false
 			for _, pre := range repairedVanish {
 				if strings.HasPrefix(n, pre) {
+					replaced = true
+				}
+			}
+			for _, pc := range repairedVanishIn {
+				if strings.HasPrefix(n, pc[0]) && strings.Contains(n, pc[1]) {
 					replaced = true
 				}
 			}
